@@ -148,6 +148,7 @@ def check(tier: str, seed: int, t0: float, build: core.BuildStatus) -> int:
                         what=f"{be}: fragment query not translated ({c.error or c.note}): {src}",
                         replay={"kind": "fragment", "backend": be, "query": src, "status": c.status, "detail": str(c.error or c.note)}))
                     continue
+                fraggen.fill_throw_lines(sx, c.qlines)
                 r = model.call("c01.fragrow", [idiom, tree, fill, sx, n0])
                 members = [ln.strip() for ln in c.pkg["slots"]["class_decl"]]
                 same = r[0] == "ok" and r[1] == c.qlines and r[2] == members and r[3] == [f"{a}={b}" for a, b in c.prog[2]]
@@ -196,6 +197,7 @@ def check(tier: str, seed: int, t0: float, build: core.BuildStatus) -> int:
                         what=f"{be}: fragment query not translated ({c.error or c.note}): {src}",
                         replay={"kind": "fragment", "backend": be, "query": src, "status": c.status, "detail": str(c.error or c.note)}))
                     continue
+                fraggen.fill_throw_lines(sx, c.qlines)
                 r = model.call("c01.fragq", [idiom, tree, fill, sx, n0])
                 members = [ln.strip() for ln in c.pkg["slots"]["class_decl"]]
                 same = r[0] == "ok" and r[1] == c.qlines and r[2] == members and r[3] == [f"{a}={b}" for a, b in c.prog[2]]
